@@ -132,11 +132,11 @@ X("c14_verus_log2_formula", "verus", _tables.make_runner(("log2",)), ["C14", "C1
   ["lemire::power (formula constant)", "bellerophon::BellerophonPowers::get_small/get_large (formula constant)"])
 PROPERTY_META["C14"] = dict(
     level="proof",
-    claim="Every table literal is extracted from /repo/src/table_*.rs on each run and compared with its mathematical definition by Verus assert-by-compute (finite set, fully computed): 651 Lemire significands, small integer powers, 5^135, Bellerophon significands, log2 formula; compiled float/integer powers decoded and checked by loop-free Kani harnesses.",
+    claim="Every table literal is extracted from /repo/src/table_*.rs on each run and compared with its mathematical definition by Verus assert-by-compute (finite set, fully computed): 651 Lemire significands, small integer powers, 5^135, Bellerophon significands, log2 formula; compiled float/integer powers decoded and checked by loop-free Kani harnesses; the 34 on-demand float powers of the bundled libm (no_std+compact) evaluated by CBMC and found exact.",
     note="std powf exactness (std+compact) is assumed and not registered; regex extraction trusted (entry count must match).",
     trusted_base=["regex extraction of the literals from src/table_*.rs (count must equal the declared length); Python-computed witnesses are checked by Verus, not trusted",
-                  "std f32::powf / f64::powf exact on 10^0..10^10 / 10^22 in the std+compact configuration (outside the crate; Kani models powf nondeterministically) -- ASSUMED, not registered"],
-    assumptions=["A-STD: std powf(10, i) exact for i <= 10 / 22 (std+compact builds only)"],
+                  "std f32::powf / f64::powf exact on 10^0..10^10 / 10^22 in the std+compact configuration (outside the crate; Kani models powf nondeterministically) -- ASSUMED, not registered; the bundled libm (no_std+compact) IS verified: c14_float_pow10_ondemand_libm"],
+    assumptions=["A-STD: std powf(10, i) exact for i <= 10 / 22 (std+compact builds only; the no_std libm powers are proved)"],
 )
 
 # --------------------------------------------------------------------------- C11 (Eisel-Lemire)
@@ -416,3 +416,4 @@ for nm, b in (("c13_heap_ops_len0_1", "pre-lengths 0 and 1"), ("c13_heap_ops_len
 K("c12_heap_shl_limbs", "heapvec", ["C12", "C04", "C05", "C13"], "heap back end: new()/try_from give capacity >= 62; shl_limbs(x, n) with len + n <= 62 succeeds, moves limbs up by n and zero-fills", ["bigint::shl_limbs", HV + "new", HV + "try_from", HV + "capacity"], strength="bounded", bound="x of 2 limbs, 1 <= n <= 60", features=["alloc", "compact_alloc"], timeout=900)
 K("c13_heap_eq_cmp", "heapvec", ["C13", "C05"], "HeapVec eq / cmp / partial_cmp / from_u64 on vectors of <= 2 limbs", [HV + "eq", HV + "cmp", HV + "partial_cmp", HV + "from_u64"], strength="bounded", bound="<= 2 limbs", features=["alloc", "compact_alloc"], timeout=900)
 X("c08_unsafe_site_inventory", "static", _ss.unsafe_inventory, ["C08"], "every `unsafe` token in the real sources is listed in inventory/unsafe_sites.json with the obligation that covers it (a mismatch makes the check UNDECIDED: a new unsafe site must not pass silently)", ["crate-wide"], strength="proved")
+K("c14_float_pow10_ondemand_libm", "num", ["C14", "C05", "C08"], "no_std+compact: the bundled libm gives powd(10, k) == 10^k exactly for k = 0..=22 and powf(10, k) == 10^k for k = 0..=10 (concrete exponents; CBMC evaluates the libm code, including its unchecked table indexing)", ["num::Float::pow_fast_path (f64/f32, no_std+compact)", "libm::powd", "libm::powf"], strength="proved", bound="the finite set of 23 + 11 calls the fast path can make", features=["nostd_compact"], timeout=900)
